@@ -16,7 +16,6 @@ package ev
 
 import (
 	"encoding/binary"
-	"encoding/hex"
 	"encoding/json"
 	"flag"
 	"fmt"
@@ -30,29 +29,12 @@ import (
 	"sync"
 	"testing"
 	"time"
+
+	"gitlab.com/gomidi/midi/v2/zverif/hx"
 )
 
 // Hex is a byte slice that is written as a hex string in JSON (cases stay readable).
-type Hex []byte
-
-func (h Hex) MarshalJSON() ([]byte, error) {
-	return json.Marshal(strings.ToUpper(hex.EncodeToString(h)))
-}
-
-func (h *Hex) UnmarshalJSON(b []byte) error {
-	var s string
-	if err := json.Unmarshal(b, &s); err != nil {
-		return err
-	}
-	d, err := hex.DecodeString(strings.ReplaceAll(s, " ", ""))
-	if err != nil {
-		return err
-	}
-	*h = d
-	return nil
-}
-
-func (h Hex) String() string { return strings.ToUpper(hex.EncodeToString(h)) }
+type Hex = hx.B
 
 func envInt(name string, def int) int {
 	if v := os.Getenv(name); v != "" {
@@ -128,6 +110,9 @@ func SetupRapid(salt string, checks int) {
 		flag.Set("rapid.shrinktime", "15s")
 	}
 }
+
+// Watchdog is the bound used for "terminates" claims on single library calls.
+const Watchdog = 20 * time.Second
 
 const maxHashes = 400000
 const maxSamples = 6
@@ -357,15 +342,23 @@ func Main(m *testing.M) {
 	os.Exit(code)
 }
 
-// Try runs f and converts a panic into a returned description (value + stack).
+// Try runs f and converts a panic into a returned description: the panic value and the
+// frames of the library under test (file:line), not the whole stack.
 func Try(f func()) (panicked string) {
 	defer func() {
 		if p := recover(); p != nil {
-			st := string(debug.Stack())
-			if len(st) > 1500 {
-				st = st[:1500]
+			var frames []string
+			for _, l := range strings.Split(string(debug.Stack()), "\n") {
+				l = strings.TrimSpace(l)
+				if strings.HasPrefix(l, "/") && !strings.Contains(l, "/zverif/") && !strings.Contains(l, "/harness/") &&
+					!strings.Contains(l, "/src/runtime/") && !strings.Contains(l, "/src/testing/") && len(frames) < 6 {
+					if i := strings.Index(l, " +0x"); i > 0 {
+						l = l[:i]
+					}
+					frames = append(frames, l)
+				}
 			}
-			panicked = fmt.Sprintf("panic: %v\n%s", p, st)
+			panicked = fmt.Sprintf("panic: %v [at %s]", p, strings.Join(frames, " <- "))
 		}
 	}()
 	f()
